@@ -127,6 +127,9 @@ fn corpus() -> Vec<String> {
         "\u{feff}#!/usr/bin/env lua\nreturn 1", "return 1\n\u{feff}", "--!strict\n#!x\nreturn 1",
         // interpolated strings whose first value starts with a table: the only thing between `{` `{` is trivia
         "return `{ {1} }`", "return `{ {} :: any }`", "return `{ {} == nil }`", "return `a{ {x = 1} }b{ {} }`",
+        // literal parts of interpolated strings: bytes without a named escape followed by a digit, parts spanning lines
+        "return `\\x1b0{count}`", "return `id:\\0307`", "return `\\31\\0579{1}\\0019`", "return `\\2550`",
+        "return `first line\\\nsecond line`", "return `a\\z\n   b{1}c\\\nd`", "return `{1}\\\n{2}\\\r\n`",
         "return `{ --[[c]] {1} }`", "return `{\n{1}\n}`", "return `{ { `{ {2} }` } }`", "return `{ ({1}) }`", "return `{ #{1} }`",
     ]
     .iter()
@@ -256,6 +259,74 @@ fn main() {
                         Outcome::Hang => {
                             report("PROCESS-HANG", "no result within the time limit", &config, snippet.as_bytes());
                             hung = true;
+                        }
+                    }
+                }
+            }
+        }
+    }
+
+    // 0b. small bundles: a required module whose last statement carries a `;` (with a comment after it), entries shorter
+    //     and longer than the module, every generator: inlining re-bases every token of the module
+    {
+        let modules = [
+            "local i = 1\nreturn i; -- done\n", "return nil;", "return { value = 1 };\n-- end of module\n",
+            "local function f()\n  for _ = 1, 2 do\n    break;\n  end\n  return 1;\nend\nreturn f(); --[[ tail ]]",
+            "return `a{1}b`;", "return 1 -- no semicolon",
+        ];
+        let entries = [
+            "return require('./m')",
+            "local m = require('./m')\nlocal other = 'a fairly long line of code so that the entry point is longer than the module it requires'\nreturn m, other\n",
+        ];
+        for module in modules {
+            for entry in entries {
+                for generator in ["\"retain_lines\"", "\"dense\"", "\"readable\""] {
+                    for rules in ["", "\"remove_spaces\"", "\"remove_comments\""] {
+                        let config = format!(
+                            "{{ generator: {}, rules: [{}], bundle: {{ require_mode: \"path\" }} }}",
+                            generator, rules
+                        );
+                        process_runs += 1;
+                        let outcome = {
+                            let (entry, module, config_text) = (entry.to_owned(), module.to_owned(), config.clone());
+                            guarded(move || -> Result<String, String> {
+                                let config: Configuration =
+                                    json5::from_str(&config_text).map_err(|e| format!("config: {}", e))?;
+                                let resources = Resources::from_memory();
+                                resources.write("src/main.lua", &entry).map_err(|e| format!("write: {:?}", e))?;
+                                resources.write("src/m.lua", &module).map_err(|e| format!("write: {:?}", e))?;
+                                match darklua_core::process(
+                                    &resources,
+                                    Options::new("src/main.lua").with_output("out/main.lua").with_configuration(config),
+                                ) {
+                                    Ok(worker) => {
+                                        let errors: Vec<String> =
+                                            worker.collect_errors().iter().map(|e| e.to_string()).collect();
+                                        if !errors.is_empty() {
+                                            return Err(format!("process: {}", errors.join("; ")));
+                                        }
+                                    }
+                                    Err(err) => return Err(format!("process: {}", err)),
+                                }
+                                resources.get("out/main.lua").map_err(|e| format!("read: {:?}", e))
+                            })
+                        };
+                        let input = format!("-- src/main.lua\n{}\n-- src/m.lua\n{}", entry, module);
+                        match outcome {
+                            Outcome::Done(Ok(output)) => {
+                                if !check_parse(output.as_bytes(), "darklua-output", &mut hung) {
+                                    report("OUTPUT-UNPARSABLE", &output, &config, input.as_bytes());
+                                }
+                            }
+                            Outcome::Done(Err(msg)) => {
+                                rule_errors += 1;
+                                report("BUNDLE-ERROR", &msg, &config, input.as_bytes());
+                            }
+                            Outcome::Panic(msg) => report("PROCESS-PANIC", &msg, &config, input.as_bytes()),
+                            Outcome::Hang => {
+                                report("PROCESS-HANG", "no result within the time limit", &config, input.as_bytes());
+                                hung = true;
+                            }
                         }
                     }
                 }
